@@ -177,7 +177,7 @@ def present(atoms, rng, noise=0.0, track=None):
         d /= np.linalg.norm(d, axis=1)[:, None]
         pos = pos + d * noise * rng.random((n, 1))
     R = _cells.random_rotation(rng)
-    t = rng.uniform(-5, 5, 3)
+    t = rng.uniform(-15, 15, 3)        # large enough to move a slab out of its cell along a non-periodic direction
     cell = a.get_cell().array @ R.T
     pos = pos @ R.T + t
     perm = rng.permutation(n)
